@@ -2,7 +2,9 @@
 (DEFCON_REPO, never /repo itself: the working tree is edited and restored with git checkout), runs defcon's own
 tests and ./check C05, prints the verdicts.  Usage: DEFCON_REPO=/path/to/scratch python mutate.py [names...]"""
 import subprocess, sys, os, json
-REPO = os.environ.get("DEFCON_REPO", "/repo")
+REPO = os.environ.get("DEFCON_REPO")
+if not REPO or os.path.realpath(REPO) == "/repo":
+    sys.exit("set DEFCON_REPO to a SCRATCH checkout of defcon (its working tree is edited and restored with git checkout)")
 VERIF = os.path.dirname(os.path.dirname(os.path.dirname(os.path.dirname(os.path.abspath(__file__)))))
 MUTS = {
  "M1_deleted_file_not_reported": ("Lib/defcon/objects/font.py",
